@@ -52,8 +52,7 @@ def gen_function(args):
             g = z3.simplify(ob.goal)
             triv = z3.is_true(g)
             obs.append(dict(name=ob.name, kind=ob.kind, where=ob.where, path=ob.path, trivial=triv,
-                            smt2=None if triv else solve.to_smt2(ob),
-                            ground=None if triv else solve.to_smt2(ob, ground=True)))
+                            smt2=None if triv else solve.to_smt2(ob), ground=not triv))
         # vacuity canaries: per path, the hypotheses of its last obligation with goal False must NOT be provable
         last = {}
         for ob in rep.obligations:
